@@ -202,11 +202,17 @@ class SWTForward(nn.Module):
         """
         ll = x
         coeffs = []
+        # The undecimated transform wraps around the image borders
+        mode = self.mode
+        if mode == 'per' or mode == 'periodization':
+            mode = 'periodic'
         # Do a multilevel transform
         filts = (self.h0_col, self.h1_col, self.h0_row, self.h1_row)
         for j in range(self.J):
             # Do 1 level of the transform
-            y = lowlevel.afb2d_atrous(ll, filts, self.mode, 2**j)
+            y = lowlevel.afb2d_atrous(ll, filts, mode, 2**j)
+            s = y.shape
+            y = y.reshape(s[0], -1, 4, s[-2], s[-1])
             coeffs.append(y)
             ll = y[:,:,0]
 
